@@ -100,6 +100,9 @@ func propC12(w *World, r *Report) {
 		}
 	}
 	checkWrappedSinkProtocol(w, r, "Y1", "Y3")
+	// back to a normal state after a failure: a recording whose counter a failed start left above its target is still
+	// ended by the next stop test (the comparison is non-strict)
+	checkStopTaken(w, r, runs, resolveMotionRoles(runs.fault), "Y3")
 	r.Extra["reachable_states"] = len(run.Reach)
 	r.Extra["interpreter_steps"] = run.Steps
 	r.Extra["quiescent_states"] = qs
